@@ -51,6 +51,8 @@ pub enum AddShredError {
     Equivocation,
     #[error("shred was invalid and leader did not equivocate")]
     InvalidShred,
+    #[error("shred type does not match its position in the slice")]
+    MisplacedShred,
 }
 
 /// Holds all data corresponding to any blocks for a single slot.
@@ -254,6 +256,12 @@ impl BlockData {
 
         let is_first_shred = self.shreds.is_empty();
         let shred_index = shred.payload().shred_index;
+        // the data/coding tag is covered neither by the leader's signature nor by the
+        // Merkle proof: a tag that does not fit the position says nothing about the
+        // leader, such a shred is dropped (storing it would make decoding fail)
+        if shred.is_data() != (shred_index.inner() < RegularShredder::DATA_OUTPUT_SHREDS) {
+            return Err(AddShredError::MisplacedShred);
+        }
         let slice_shreds = self
             .shreds
             .entry(slice_index)
